@@ -89,9 +89,52 @@ class C01Faults(BridgeBase):
 from pipeline import Multi
 
 
+class C01Binding(Pipeline):
+    """Token re-binding while transfers are pending: TokenBinding.tla (the pool is keyed by contract, the refunded /
+    burned denom is looked up again through the reverse index)."""
+    pid = "C01"
+    mc = [("TokenBinding_mc", "TokenBinding_mc", ("quick", "thorough"))]
+    gens = [Gen("TokenBindingGen", "TokenBindingGen_cover", "bfs", tiers=("quick", "thorough"), timeout=600),
+            Gen("TokenBindingGen", "TokenBindingGen_sim", "simulate", num=300, depth=14, tiers=("quick",)),
+            Gen("TokenBindingGen", "TokenBindingGen_sim", "simulate", num=6000, depth=14, tiers=("thorough",))]
+    driver_pkg = "drivers/tokbinding"
+    driver_test = "TestDriveTokenBinding"
+    trace_module = "TokenBindingTrace"
+    assumptions = [
+        "the token factory is seen through skyway's TokenFactoryKeeper interface: the creator named in factory/<creator>/<sub> is the admin (hand-overs are decided by C03 / C16)",
+        "amount 1, no bridge tax, one chain; batches are not built in this family (SkywayBridge.tla covers them with fixed bindings)",
+    ]
+
+    def nontrivial(self, evs):
+        return sum(1 for e in evs if e["act"] == "Bind" and e.get("res") == "ok") >= 1 and any(e["act"] == "Cancel" for e in evs)
+
+    def binding_selftest(self, events, tier):
+        import copy
+        # move one escrowed coin to the other denom in one recorded observation -> EscrowEq must fail;
+        # drop one accepted Send event -> the pool holds a transfer the monitors never saw
+        hs = {}
+        for e in events:
+            hs.setdefault(e["h"], []).append(e)
+        for h, evs in hs.items():
+            k = next((i for i, e in enumerate(evs) if e["act"] == "Send" and e.get("res") == "ok"), None)
+            if k is None or k + 1 >= len(evs):
+                continue
+            a = copy.deepcopy(evs)
+            a[k]["obs"]["escrow"] = list(reversed(a[k]["obs"]["escrow"]))
+            if a[k]["obs"]["escrow"] == evs[k]["obs"]["escrow"]:
+                continue
+            v1 = self.validate(a)
+            c1 = any(n == "C01.BindEscrowEq" for n, _, _ in v1.monfail)
+            b = evs[:k] + evs[k + 1:]
+            v2 = self.validate(b)
+            c2 = bool(v2.monfail) or not v2.accepted
+            return {"ok": c1 and c2, "corrupted_escrow_rejected": c1, "dropped_send_rejected": c2}
+        return {"ok": False, "why": "no accepted Send found"}
+
+
 class C01All(Multi):
     pid = "C01"
-    parts = [C01(), C01Faults()]
+    parts = [C01(), C01Faults(), C01Binding()]
 
 
 CHECK = C01All()
